@@ -31,6 +31,7 @@ def concretize_args(m, args):
 def run_harness(env, pkg, func, args, assume=(), unwind=64, merge=False, timeout_ms=120000, sample=None, unsigned=(), interp_kw=None, setup=None):
     """symbolically execute harness `func` on args (Str / terms / python values); every outcome must be `return 0`."""
     I, ctx = env.interp(merge=merge, unwind=unwind, timeout_ms=timeout_ms, **(interp_kw or {}))
+    I.track_globals = True
     for c in assume:
         ctx.assume(c)
     st = I.new_state()
@@ -54,14 +55,16 @@ def run_harness(env, pkg, func, args, assume=(), unwind=64, merge=False, timeout
                 out.append(a)
         return out
     cex, nobl = runner.outcome_violations(I, ctx, outs, pargs, func, args_of)
-    return dict(status='viol' if cex else 'ok', cex=cex, obligations=nobl, npaths=len(outs),
+    return dict(status='viol' if cex else 'ok', cex=cex, obligations=nobl, npaths=len(outs), global_writes=sorted(I.global_writes), global_reads=sorted(I.global_reads),
                 samples=[dict(harness=func, shape=sample, paths=len(outs), result='%d counterexample(s)' % len(cex) if cex else 'all paths return 0; no panic, no unwinding failure')],
                 stats=dict(I.stats, **ctx.stats, solver_time=ctx.solver_time))
 
 
 def merge_results(rs):
-    out = dict(status='ok', cex=[], obligations=0, samples=[], stats={})
+    out = dict(status='ok', cex=[], obligations=0, samples=[], stats={}, global_writes=[], global_reads=[])
     for r in rs:
+        out['global_writes'] = sorted(set(out['global_writes']) | set(r.get('global_writes', ())))
+        out['global_reads'] = sorted(set(out['global_reads']) | set(r.get('global_reads', ())))
         out['cex'] += r['cex']
         out['obligations'] += r['obligations']
         out['samples'] += r['samples'][:1]
